@@ -30,7 +30,7 @@ McCrc32(pl) == IF Len(pl) <= MaxLen /\ pl = Payload(Len(pl)) THEN Crc32Tab[Len(p
 ASSUME Crc5TableOk
 ASSUME Crc32StreamOk
 
-NoRec == [iw |-> NoWord, good |-> FALSE, bad |-> FALSE, sv |-> 0, sd |-> <<0, 0, 0, 0>>]
+NoRec == [iw |-> NoWord, good |-> FALSE, bad |-> FALSE, sv |-> 0, sd |-> <<0, 0, 0, 0>>, rst |-> FALSE]
 Init == p = RxInit /\ in = NoRec /\ cur = <<>> /\ sentlog = <<>> /\ reports = <<>> /\ gaps = 0
 
 \* outputs a conforming receiver may show: payload bytes passed through in the cycle of their word,
@@ -41,7 +41,7 @@ Cycle(w) ==
         m   == IF pay THEN LenMask(Min(4, p.len - Len(p.got))) ELSE 0
     IN \E rep \in (IF p1.owe # <<>> THEN Bool ELSE {FALSE}) \cup (IF p1.optbad THEN {TRUE} ELSE {}) :
          LET v == IF p1.owe # <<>> THEN p1.owe[1].v ELSE "bad"
-             r == [iw |-> w, good |-> rep /\ v = "good", bad |-> rep /\ v = "bad", sv |-> m, sd |-> w.d]
+             r == [iw |-> w, good |-> rep /\ v = "good", bad |-> rep /\ v = "bad", sv |-> m, sd |-> w.d, rst |-> FALSE]
          IN \E j \in {JudgeE(p, p1, r)} :
             /\ j.f = "ok"
             /\ p' = j.n
